@@ -408,8 +408,8 @@ def run_item(item):
 
 def floors(ctx, agg):
     p = []
-    if agg.counters.get('cells_checked', 0) < 20000:
-        p.append('fewer than 20000 painted cells compared')
+    if agg.counters.get('cells_checked', 0) < 15000:
+        p.append('fewer than 15000 painted cells compared')
     if agg.counters.get('rejected_as_expected', 0) < 300:
         p.append('fewer than 300 invalid strings seen rejected')
     if agg.counters.get('round_trips', 0) < 300:
